@@ -688,19 +688,34 @@ class Sectionable(BaseObject):
                 obj.append(sec.clone(keep_id=keep_id))
 
         # A merged Section of the copy is merged with the copy of the linked Section,
-        # not with a Section of the original tree. If the linked Section is not
-        # part of the copy, the copied Section is not merged any longer.
+        # not with a Section of the original tree. If the linked Section is part of
+        # the original tree but not of the copy, the copied Section is not merged any
+        # longer. A Section of another tree (e.g. an included terminology) is not
+        # part of the original and stays referenced.
         originals, copies = [self], [obj]
         if children:
             originals.extend(self.itersections(recursive=True))
             copies.extend(obj.itersections(recursive=True))
         twins = dict(zip([id(sec) for sec in originals], copies))
         for sec, twin in zip(originals, copies):
-            if getattr(sec, "_merged", None) is not None:
-                twin._merged = twins.get(id(sec._merged))
-                if twin._merged is None:
-                    twin._merged_attrs = ()
+            merged = getattr(sec, "_merged", None)
+            if merged is None:
+                continue
+            twin._merged = twins.get(id(merged), merged)
+            twin._merged_attrs = getattr(sec, "_merged_attrs", ())
+            if twin._merged is merged and self._tree_root(merged) is self._tree_root(sec):
+                twin._merged = None
+                twin._merged_attrs = ()
 
+        return obj
+
+    @staticmethod
+    def _tree_root(obj):
+        """
+        Returns the object at the top of the parent chain of a Section.
+        """
+        while getattr(obj, "parent", None) is not None:
+            obj = obj.parent
         return obj
 
     @property
